@@ -32,6 +32,7 @@ pub struct Probes {
     pub size_limit_tight: u64,
     pub reload_acts: u64,
     pub break_acts: u64,
+    pub tours_too_ambiguous: u64,
     pub multi_jobs_assigned: u64,
     pub unassigned: u64,
     pub skipped_time_replay: u64,
@@ -52,7 +53,7 @@ impl Probes {
         macro_rules! a { ($($n:ident),*) => { $( self.$n += o.$n; )* }; }
         a!(
             tours, activities, multi_activity_stops, waiting_acts, tw_tight, cap_tight, dist_limit_tight,
-            dur_limit_tight, size_limit_tight, reload_acts, break_acts, multi_jobs_assigned, unassigned,
+            dur_limit_tight, size_limit_tight, reload_acts, break_acts, tours_too_ambiguous, multi_jobs_assigned, unassigned,
             skipped_time_replay, tags_checked, order_checked, groups_checked, compat_checked, skills_checked,
             unreachable_checked, relations_checked, resources_checked, shift_latest_tight, open_tours
         );
@@ -61,7 +62,7 @@ impl Probes {
         macro_rules! j { ($($n:ident),*) => { serde_json::json!({ $( stringify!($n): self.$n, )* }) }; }
         j!(
             tours, activities, multi_activity_stops, waiting_acts, tw_tight, cap_tight, dist_limit_tight,
-            dur_limit_tight, size_limit_tight, reload_acts, break_acts, multi_jobs_assigned, unassigned,
+            dur_limit_tight, size_limit_tight, reload_acts, break_acts, tours_too_ambiguous, multi_jobs_assigned, unassigned,
             skipped_time_replay, tags_checked, order_checked, groups_checked, compat_checked, skills_checked,
             unreachable_checked, relations_checked, resources_checked, shift_latest_tight, open_tours
         )
@@ -290,10 +291,19 @@ pub fn check_tour(m: &PModel, ti: usize, t: &STour, out: &mut Vec<Issue>, probes
         }
     }
     let (o, p, r) = best?;
+    if combos.len() >= COMBO_CAP && !o.is_empty() {
+        // too many interpretations to enumerate: no verdict on this tour (counted)
+        probes.tours_too_ambiguous += 1;
+        return r;
+    }
     out.extend(o);
     probes.add(&p);
     r
 }
+
+/// Upper bound on enumerated interpretations of one tour; when it is hit and no interpretation is clean the tour is not
+/// judged (the consistent interpretation may be among those not enumerated).
+const COMBO_CAP: usize = 4096;
 
 fn enumerate_assignments(m: &PModel, t: &STour) -> Vec<BTreeMap<usize, usize>> {
     // flat index of every activity in the tour
@@ -318,7 +328,7 @@ fn enumerate_assignments(m: &PModel, t: &STour) -> Vec<BTreeMap<usize, usize>> {
         let mut perms: Vec<Vec<usize>> = vec![];
         let mut cur: Vec<usize> = vec![];
         fn rec(k: usize, n: usize, acts: &[(usize, &str, Option<usize>)], job: &PJob, cur: &mut Vec<usize>, out: &mut Vec<Vec<usize>>) {
-            if out.len() >= 24 {
+            if out.len() >= 120 {
                 return;
             }
             if k == n {
@@ -356,7 +366,7 @@ fn enumerate_assignments(m: &PModel, t: &STour) -> Vec<BTreeMap<usize, usize>> {
                     c2.insert(acts[k].0, *tk);
                 }
                 next.push(c2);
-                if next.len() >= 96 {
+                if next.len() >= COMBO_CAP {
                     break 'outer;
                 }
             }
@@ -765,7 +775,16 @@ fn check_tour_inner(m: &PModel, ti: usize, t: &STour, assign: &BTreeMap<usize, u
                         continue;
                     }
                     if load[d] > cap || load[d] < 0 {
-                        issue(out, F, "capacity", format!("tour {ti} ({}): load {:?} vs capacity {:?} at activity {at} ({})", t.vehicle_id, load, vt.capacity, flat[at].act.job_id));
+                        // a picked-up load of a pickup-and-delivery job which is carried over a reload into the overloaded
+                        // part of the tour: a structurally different breach than merged intervals (own rule id)
+                        let carried = (0..flat.len()).any(|pi| {
+                            matches!(task_of(pi), Some((job, task)) if job.dynamic && task.kind == TaskKind::Pickup)
+                                && pi < at
+                                && (pi + 1..=at).any(|r| flat[r].act.job_id == "reload")
+                                && (at + 1..flat.len()).any(|di| matches!((task_of(di), matched[pi]), (Some((_, task)), Some((ji, _))) if task.kind == TaskKind::Delivery && matched[di].map(|x| x.0) == Some(ji)))
+                        });
+                        let rule = if carried { "capacity-carried-over-reload" } else { "capacity" };
+                        issue(out, F, rule, format!("tour {ti} ({}): load {:?} vs capacity {:?} at activity {at} ({})", t.vehicle_id, load, vt.capacity, flat[at].act.job_id));
                         return;
                     }
                     if load[d] == cap && cap > 0 {
